@@ -123,28 +123,31 @@ def fqFromBytesChecked (bytes : List Nat) : Option Nat :=
   let v := leBytes bytes
   if v < q then some v else none
 
+/-- decoding of an already parsed, canonical field element (steps 2-6 of `vartime_decompress`) -/
+def decodeField (sr : SR) (s : Nat) : Except DecErr Ext :=
+  if isNeg s then .error .encoding
+  else
+    let ss := fsq q s
+    let u1 := fsub q 1 ss
+    let u2 := fsub q (fsq q u1) (fmul q (fmul q 4 cD) ss)
+    match sr 1 (fmul q u2 (fsq q u1)) with
+    | none => .error .panic
+    | some (wasSquare, v) =>
+      if !wasSquare then .error .encoding
+      else
+        let twoSU1 := fmul q (fmul q 2 s) u1
+        let check := fmul q twoSU1 v
+        let v := if isNeg check then fneg q v else v
+        let x := fmul q (fmul q twoSU1 (fsq q v)) u2
+        let y := fmul q (fmul q (fadd q 1 ss) v) u1
+        .ok ⟨x, y, 1, fmul q x y⟩
+
 /-- decode (ark_curve/encoding.rs:32-86, min_curve/element.rs:248-288); input: exactly 32 bytes -/
 def decode32 (sr : SR) (bytes : List Nat) : Except DecErr Ext :=
   if bytes.getD 31 0 / 32 != 0 then .error .encoding
   else match fqFromBytesChecked bytes with
   | none => .error .encoding
-  | some s =>
-    if isNeg s then .error .encoding
-    else
-      let ss := fsq q s
-      let u1 := fsub q 1 ss
-      let u2 := fsub q (fsq q u1) (fmul q (fmul q 4 cD) ss)
-      match sr 1 (fmul q u2 (fsq q u1)) with
-      | none => .error .panic
-      | some (wasSquare, v) =>
-        if !wasSquare then .error .encoding
-        else
-          let twoSU1 := fmul q (fmul q 2 s) u1
-          let check := fmul q twoSU1 v
-          let v := if isNeg check then fneg q v else v
-          let x := fmul q (fmul q twoSU1 (fsq q v)) u2
-          let y := fmul q (fmul q (fadd q 1 ss) v) u1
-          .ok ⟨x, y, 1, fmul q x y⟩
+  | some s => decodeField sr s
 
 /-- `TryFrom<&[u8]>` -/
 def decodeSlice (sr : SR) (bytes : List Nat) : Except DecErr Ext :=
